@@ -63,6 +63,18 @@ CLAIMS = {
              "Cache.file_hash memoisation across compilations in one process, transitive_fingerprint's dependency walk, "
              "Inline._inline_key call sites (the key omits cython_compiler_directives), cache lookup/store I/O.",
         ref="4 C48"),
+    "C02": dict(
+        text="Proof on the abstract CPython object model that the constant-operand fast paths __Pyx_PyLong_{Add,Subtract,FloorDivide,"
+             "Remainder,Lshift,Rshift,TrueDivide}ObjC and {Add,Subtract}CObj (taken from the generated module, digit cases unrolled, "
+             "sub-functions inlined) return an exact int / float with exactly Python's result for the int operand - floor division, "
+             "remainder with the divisor's sign, shifts validated after the fact, true division only via doubles when the operand is "
+             "exactly representable - or delegate to CPython's own slot; under the call-site conditions of Optimize.py (|c| <= 2**30, "
+             "no zero divisor, shift constants 1..63). All int operands of any size at once.",
+        note="Trusted: dv C front end, dv/pyobj.py (PyLong representation contract, C-API stubs, delegation to CPython's slots assumed "
+             "correct), z3; inside the function marked no_sanitize(\"shift\") shifts follow x86-64/AArch64 semantics; IEEE division and "
+             "int->double conversion are uninterpreted functions shared with the spec. NOT covered: And/Or/Xor (symbolic-symbolic bit "
+             "operations), Multiply, Eq/Ne (PyLongCompare), PyFloatBinop, the non-int operand paths, Optimize.py's selection logic.",
+        ref="4 C02"),
     "C05": dict(
         text="Proof on the abstract CPython object model, for every C integer type of the matrix, that __Pyx_PyLong_As_<T> (compact, "
              "2-4 digit and C-API paths, all inlined real code from the generated module) returns the value of an exact int object when "
